@@ -713,6 +713,15 @@ theorem covered_in_instance (nodes : List ONode) (min : Rat) (n : ONode) (hn : n
     (extract_mem nodes min s n.attr n.value n.id).mpr ⟨n, hn, rfl, rfl, rfl, c', hl, hle⟩
   exact ⟨i, hi, x, hx, h1, h2, h3⟩
 
+/-- asking for a higher minimum never adds anything: what is reported under the minimum `min'` is
+reported under every lower minimum `min` (mining another seed with a higher minimum on the same
+graph can only prune the instances mined before) -/
+theorem extract_antitone (nodes : List ONode) (min min' : Rat) (h : min ≤ min') (s : Nat) (a v : String) (k : Nat)
+    (hr : ∃ i ∈ extract nodes min', i.seed = s ∧ ∃ x ∈ i.attrs, x.name = a ∧ x.value = v ∧ k ∈ x.nodes) :
+    ∃ i ∈ extract nodes min, i.seed = s ∧ ∃ x ∈ i.attrs, x.name = a ∧ x.value = v ∧ k ∈ x.nodes := by
+  obtain ⟨n, hn, hid, ha, hv, c, hc, hle⟩ := (extract_mem nodes min' s a v k).mp hr
+  exact (extract_mem nodes min s a v k).mpr ⟨n, hn, hid, ha, hv, c, hc, le_trans h hle⟩
+
 def exNodes : List ONode :=
   [⟨0, "oa:", "v1", [(0, 1), (2, 1/20)]⟩, ⟨1, "ob:", "v2", [(0, 9/10)]⟩, ⟨2, "oa:", "v1", [(2, 1), (0, 1/2)]⟩]
 
